@@ -105,6 +105,26 @@ end Git
 
 namespace Git
 
+/-! ## the pathspec of `git add` when the Xvc root is a subdirectory of the Git work tree -/
+
+/-- Xvc root = Git root: the parametrised pathspec is the plain one -/
+theorem isXvcPathAt_nil : isXvcPathAt [] = isXvcPath := by
+  funext p
+  simp [isXvcPathAt]
+
+/-- a path outside the Xvc root is never matched, whatever it is called -/
+theorem isXvcPathAt_outside (root p : Path) (h : root.isPrefixOf p = false) :
+    isXvcPathAt root p = false := by
+  simp [isXvcPathAt, h]
+
+/-- a path below the Xvc root is matched iff its remainder is an xvc path -/
+theorem isXvcPathAt_append (root q : Path) : isXvcPathAt root (root ++ q) = isXvcPath q := by
+  have h : root.isPrefixOf (root ++ q) = true := by
+    induction root with
+    | nil => rfl
+    | cons a t ih => simp [List.isPrefixOf, ih]
+  simp [isXvcPathAt, h]
+
 /-! ## the view of a state the property talks about -/
 
 /-- no path carries both a staged and an unstaged change: the conflict-free fragment of
